@@ -41,8 +41,21 @@ Section C12.
      out of fuel); the pinned commit's model has one, reached by Pinned/PinnedIte.itec_cached_terminal_panics *)
   Theorem C12_builds_nothing mr f g h fuel mr' x : mstep fuel mr (HItec f g h) = Some (mr', x) -> mr' = mr.
   Proof. apply (query_pure nhash khash). reflexivity. Qed.
+  (* both return: for every reachable state (any cache content) and live handles there is a fuel bound (number of variable
+     levels + 2) from which on the model's step yields a value and leaves the state unchanged -- the model has no failing
+     branch, allocates nothing, and the recursion depth is bounded by the number of variable levels *)
+  Theorem C12_ite_constant_returns mr f g h rf rg rh :
+    reachable mr -> liveh mr f rf -> liveh mr g rg -> liveh mr h rh ->
+    exists bound, forall fuel, (bound <= fuel)%nat -> exists o, mstep fuel mr (HItec f g h) = Some (mr, OOptBool o).
+  Proof. exact (itec_step_returns nhash khash bmask cmask0 smask0 capacity cap_ok mr f g h rf rg rh). Qed.
+  Theorem C12_is_implies_returns mr f g rf rg :
+    reachable mr -> liveh mr f rf -> liveh mr g rg ->
+    exists bound, forall fuel, (bound <= fuel)%nat -> exists b, mstep fuel mr (HImplies f g) = Some (mr, OBool b).
+  Proof. exact (implies_step_returns nhash khash bmask cmask0 smask0 capacity cap_ok mr f g rf rg). Qed.
 End C12.
 
 Print Assumptions C12_ite_constant.
 Print Assumptions C12_is_implies.
 Print Assumptions C12_builds_nothing.
+Print Assumptions C12_ite_constant_returns.
+Print Assumptions C12_is_implies_returns.
